@@ -68,6 +68,8 @@ def generate(rng, tier):
         for i in range(rng.randint(1, 3)):
             n = rng.randint(1, 4)
             kind = rng.choice(["list", "list", "tuple", "range", "scalar", "oneshot"])
+            if kind == "tuple" and rng.random() < 0.2:
+                kind = "ntuple"
             if kind == "oneshot":
                 kind = rng.choice(["iter", "gen"]) if i > 0 else "list"
             if kind == "scalar":
